@@ -15,7 +15,7 @@ def rejects (cfg : Cfg) (now : Nat) (b : Breaker) : Bool :=
   cfg.breakerOn && (b.cstate == .opened) && !elapsedOk cfg now b
 
 /-- breaker state once the request has been admitted (an open breaker past its timeout goes half-open) -/
-def admit (cfg : Cfg) (now : Nat) (b : Breaker) : Breaker :=
+def enter (cfg : Cfg) (now : Nat) (b : Breaker) : Breaker :=
   if cfg.breakerOn && (b.cstate == .opened) && elapsedOk cfg now b then { b with cstate := .halfOpen } else b
 
 /-- what the kind of an admitted request does to the breaker -/
@@ -26,7 +26,7 @@ def applyKind (cfg : Cfg) (now : Nat) (b : Breaker) : Kind → Breaker
 
 /-- the breaker automaton: one request of kind `k` -/
 def brStep (cfg : Cfg) (now : Nat) (b : Breaker) (k : Kind) : Breaker :=
-  if k = .circuitOpen then b else applyKind cfg now (admit cfg now b) k
+  if k = .circuitOpen then b else applyKind cfg now (enter cfg now b) k
 
 /-- number of failure outcomes in a trace -/
 def failureCount (tr : List Obs) : Nat := (tr.filter fun o => o.out.kind.isFailure).length
@@ -42,8 +42,8 @@ theorem checkCircuit_eq (cfg : Cfg) (now : Nat) (b : Breaker) :
 theorem run_eq (cfg : Cfg) (H : Hashes) (s : State) (p : Prompt) (zr yr : Resp) :
     run cfg H s p zr yr =
       if rejects cfg s.now s.br then (s, ⟨.circuitOpen, some circuitOpenResult⟩)
-      else afterCircuit cfg H { s with br := admit cfg s.now s.br } p zr yr := by
-  unfold run rejects admit
+      else afterCircuit cfg H { s with br := enter cfg s.now s.br } p zr yr := by
+  unfold run rejects enter
   cases hb : cfg.breakerOn
   · simp
   · rw [checkCircuit_eq]
@@ -108,7 +108,7 @@ theorem run_br (cfg : Cfg) (H : Hashes) (s : State) (p : Prompt) (zr yr : Resp) 
     (run cfg H s p zr yr).2.kind ≠ .admin := by
   rw [run_eq]
   cases hr : rejects cfg s.now s.br
-  · have h := afterCircuit_spec cfg H { s with br := admit cfg s.now s.br } p zr yr
+  · have h := afterCircuit_spec cfg H { s with br := enter cfg s.now s.br } p zr yr
     simp at h ⊢
     refine ⟨?_, h.2.1, h.2.2.1, h.2.2.2⟩
     unfold brStep
